@@ -309,6 +309,9 @@ def oracle(c, o):
         for i, v in enumerate(c["v"]):
             if out[i] != min(max(v, c["lb"][i]), c["ub"][i]): return "box prox component %d is not the projection" % i
         if unhex(o["h"]) != 0: return "box prox must return 0"
+        if "out_view" in o:
+            if [t for t in o["out_view"]] != [t for t in o["out"]]: return "box prox through a non-contiguous matrix window differs from the same data as a vector: %r vs %r" % (o["out_view"], o["out"])
+            if not o["view_guard_ok"]: return "box prox wrote outside the output window"
     elif op == "boxstep":
         out, p = U("out"), U("p")
         for i in range(len(out)):
@@ -316,6 +319,10 @@ def oracle(c, o):
             e = min(max(v, c["lb"][i]), c["ub"][i])
             if not close(out[i], e, 1e-12, 8 * ulp(x) + 8*ulp(v)): return "box prox_step out[%d] is not the projection" % i
             if not close(p[i], out[i] - x, 1e-9, 8 * ulp(x)): return "box prox_step p != out - in"
+        if "out_view" in o:
+            if list(o["out_view"]) != list(o["out"]) or list(o["p_view"]) != list(o["p"]):
+                return "box prox_step through non-contiguous matrix windows differs from the same data as vectors: out %r vs %r, p %r vs %r" % (o["out_view"], o["out"], o["p_view"], o["p"])
+            if not o["view_guard_ok"]: return "box prox_step wrote outside the output windows"
     elif op == "projdiff":
         out = U("out")
         for i, z in enumerate(c["z"]):
